@@ -152,6 +152,15 @@ func raceValue(w *World) {
 	nt := 2 + t.Choose(3)
 	lists := make([][]raceOp, nt)
 	n := int32(0)
+	var stalled context.CancelFunc
+	if t.Flag(1, 4) {
+		// a backpressured subscriber that never comes for its events: writes run into their five second bound (fake time
+		// passes when nobody can run) and take the path that hands the event to the later listeners without waiting
+		var sctx context.Context
+		sctx, stalled = context.WithCancel(context.Background())
+		_ = v.Pull(sctx, resource.WithBackpressure(true))
+		w.IdleAdvance, w.IdleAdvanceN = 6*time.Second, 6
+	}
 	for i := range lists {
 		k := 1 + t.Choose(4)
 		for j := 0; j < k; j++ {
@@ -202,6 +211,10 @@ func raceValue(w *World) {
 	}
 	runOps(w, lists)
 	w.Run()
+	if stalled != nil {
+		stalled()
+		w.Run()
+	}
 }
 
 func raceColl(w *World) {
